@@ -149,3 +149,23 @@ _add('C17', 'A deep-iframe family (iframe as last child 0..3 levels down, decidi
 _add('C18', 'All two-call sequences over (type, string) that share the type or the string must give the stand-alone result; non-ASCII digits.')
 _add('C19', 'Raw-text argument lists with comments, quotes and bare identifiers next to the commas, each with the AST it must mean; text and needles that begin/end with quotes and backslashes.')
 _add('C20', 'Long (re-truncated) values and URL-like values full of regex metacharacters in the pretty-printer set.')
+
+# ---- additions after waves 4-7 ----
+_add('C01', 'Further document kinds: HTML documents whose elements carry the XHTML namespace with names stored in mixed case (what html5lib builds), detached trees (call target = root element, no BeautifulSoup object above), trees in which an iframe is an ordinary parent; layer N: 936 functional selectors with permuted tag-less lists under 5 outer compounds on mixed-namespace XML with 3 caller maps (default namespace); class strings whose tokens merely contain the selected names.')
+_add('C02', 'Rows inside an iframe, rows with processing instructions and declarations between the elements, rows mixing namespaces (one prefix bound to two URIs, two prefixes to one) with plain, of-type and of-S (bare, *|, prefixed, list) forms under 5 maps; several positional pseudo-classes in one compound.')
+_add('C03', 'The module-function = compile().method equation also on a namespaced document where the map decides the answer (prefix, default namespace, custom selectors using the prefix); "&" written after flag-carried pseudo-classes (:empty, :root, :defined, :dir()).')
+_add('C04', 'Layers alone-ns (six entry points agree element by element on namespaced documents under 5 maps incl. no map and a re-bound prefix) and reuse (one compiled object on document A, B, A, B against fresh compiles on pristine copies, all ordered document pairs); boolean attributes with non-canonical values and varying attribute order.')
+_add('C06', 'Lexemes with an escaped letter inside a pseudo-class name, and text that means something to str.format / % formatting.')
+_add('C07', 'Value layer with regex-syntax selector values in quoted and escaped-identifier spelling; An+B openings as prefixes of digit pumps (time must not follow the VALUE of a number).')
+_add('C08', 'Layer parsed: 6 rich documents x 5 real builders (html.parser, lxml, html5lib, lxml-xml XHTML and XML) x all selector texts + 11 namespace forms x all entry points on the document, every element and detached copies; elements ending in an iframe; exotic str content (lone surrogates, NUL, U+0080, U+10FFFF, case-mapping oddities) and a sweep of every 17th code point (thorough: every one) as tag name, attribute name and type/dir/lang/value; pairs of pseudo-classes that keep per-call bookkeeping.')
+_add('C09', 'Code-point sweep: a character equals its hex escape (short form and six upper-case digits) as class, id and quoted value for 33 boundary code points and every 13th (thorough: every) code point from U+00A0 to U+10FFFF; regex-syntax attribute values.')
+_add('C11', 'util.lower on EVERY code point against ASCII-only folding; html5lib-shaped documents (HTML + XHTML namespace, mixed-case stored names, adjusted SVG names).')
+_add('C12', 'Laws on html5lib / XHTML documents with a form: T:PC = T intersected with :PC, ":PC, U" = union, ":PC ~ T" composed by hand, for 16 HTML pseudo-classes x 5 typed forms x 3 maps (the caller\'s map stays in force around the library\'s internal selectors).')
+_add('C13', 'Several :lang() in one compound (conjunction, under :not and :is); pragma with attributes in either order; range lists spelled with comments that contain range-shaped text.')
+_add('C14', 'Quick now also: a conflict-directed second pass with two preemptions, both next to a source line that writes watched shared state (every lru_cache, module/class/default-argument/closure containers, interpreter settings; learned from the preemption-free executions), for tuples with <=35 such points; range-input operations (ordinary and > 4300-digit values, compiled inside and outside the thread); a rejected pattern; interpreter settings compared after every schedule; library containers restored to their post-import content before every execution; fill levels around the capacity of a home-grown memo; cooperative Lock/RLock/Event/Condition/Semaphore (waiting is a scheduling event, all-threads-waiting is reported as deadlock).')
+_add('C15', 'Every entry point rejects every kind of extra argument (empty maps included) on compiled objects; map laws on all sequences of <=3 pairs over 2 keys x 2 values as list/tuple/dict for ImmutableDict, Namespaces, CustomSelectors and through compile(); texts the parser reads alike must stay unequal as objects and each object records the pattern/flags it was given; == / != consistency on structures whose hashes collide (hash(-1) == hash(-2)); a round trip that raises is an outcome.')
+_add('C16', 'The probe document holds every string class Beautiful Soup has (script, style, template, ruby text/parenthesis, comment, CDATA, doctype, processing instruction) with selectors whose answer depends on which of them count as text.')
+_add('C17', 'Boolean attributes with non-canonical values; attribute order varies; nested-form placement of radios (a control belongs to its nearest form); law: a disabled or readonly control is never :read-write unless it is an editing host.')
+_add('C18', 'Type keyword in other ASCII cases; layer variants: the (min,max,value) triples under XHTML with other-case decoy attributes (API-built and parsed), html5lib, lxml, and on readonly / disabled / fieldset-disabled inputs.')
+_add('C19', 'Search texts spelled as escaped bare identifiers; whitespace kinds FF/TAB/CR/LF, VT, EM SPACE among the text leaves.')
+_add('C20', 'Patterns over wide, combining, astral and zero-width characters and TAB (a column is a code-point offset); DEBUG-invariance repeated with a default namespace, a prefix and custom selectors in force.')
